@@ -228,14 +228,14 @@ theorem rxStep_cases (hlen : ∀ n p, (sealF n p).length = p.length + 16)
       rxStep openF M bd ids dig c s b =
         Arq.recv { s with netData := ⟨k, dig d.payload⟩ :: s.netData } ⟨k, dig d.payload⟩ := by
   cases hp : parseD openF M bd b with
-  | none => left; simp [rxStep, hp]
+  | none => left; simp [rxStep, rxApply, hp]
   | some mp =>
     obtain ⟨m, p⟩ := mp
     obtain ⟨d, hdG, _, hm, hpp, _⟩ := parseD_genuine openF M bd sealF hlen G hI hw hb hf hd hp
     subst hm; subst hpp
     cases hr : route c (ids d.md) with
-    | none => left; simp [rxStep, hp, hr]
-    | some k => right; exact ⟨d, hdG, k, hr, rfl, by simp [rxStep, hp, hr]⟩
+    | none => left; simp [rxStep, rxApply, hp, hr]
+    | some k => right; exact ⟨d, hdG, k, hr, rfl, by simp [rxStep, rxApply, hp, hr]⟩
 
 /-- Reachability is preserved: if the network holds a copy of every genuine data-bearing datagram of this
     session and direction, one attacker-chosen datagram is either nothing or the two C02 steps
